@@ -66,8 +66,8 @@ def _op(op):
 
 
 def _out(o):
-    return ("{| o_ok := %s; o_minted := %s; o_staking := %s; o_community := %s; o_strategic := %s; o_module := %s; "
-            "o_period := %s; o_skipped := %s |}" % (b(o["ok"]), z(o["minted"]), z(o["staking"]), z(o["community"]),
+    return ("{| o_ok := %s; o_panic := %s; o_minted := %s; o_staking := %s; o_community := %s; o_strategic := %s; o_module := %s; "
+            "o_period := %s; o_skipped := %s |}" % (b(o["ok"]), b(o.get("panic")), z(o["minted"]), z(o["staking"]), z(o["community"]),
                                                    z(o["strategic"]), z(o["module"]), z(o["period"]), z(o["skipped"])))
 
 
@@ -78,18 +78,20 @@ def to_coq_case(rec):
         _params(o["params"]), "None" if unset else "(Some %s)" % z(o["period"]),
         "None" if unset else "(Some %s)" % z(o["skipped"]), z(o["module"]))
     tr = "; ".join("(%s, %s)" % (_op(op), _out(ob)) for op, ob in zip(i["ops"], o["ops"]))
-    return "{| c_init := %s; c_tr := [%s] |}" % (init, tr)
+    return "{| c_zp := %s; c_init := %s; c_tr := [%s] |}" % (b(o.get("zero_mint_panics")), init, tr)
 
 
 def _facts(rec):
     i, o = rec["input"], rec["obs"]
     enabled = i["params"]["enabled"]
     f = {"enabled_days": 0, "disabled_days": 0, "rollovers": 0, "mints": 0, "zero_mints_enabled": 0, "toggles": 0,
-         "edits_ok": 0, "rejected": 0, "other_ids": 0, "funds": 0, "past_end": 0}
+         "edits_ok": 0, "rejected": 0, "other_ids": 0, "funds": 0, "past_end": 0, "PANIC(sub-unit provision, reported finding)": 0}
     period = o["period"]
     mx = i["params"]["max"]
     for op, ob in zip(i["ops"], o["ops"]):
         k = op["op"]
+        if ob.get("panic"):
+            f["PANIC(sub-unit provision, reported finding)"] += 1
         if k == "end" and op.get("day"):
             if enabled:
                 f["enabled_days"] += 1
@@ -164,7 +166,7 @@ def classify(rec):
         ks.append("sequences-never-written")
     for k, v in f.items():
         if v:
-            ks.append(k if k in ("past_end", "rollovers", "funds", "rejected", "other_ids", "zero_mints_enabled") else
+            ks.append(k if k in ("past_end", "rollovers", "funds", "rejected", "other_ids", "zero_mints_enabled") or k.startswith("PANIC") else
                       "%s=%s" % (k, "1-2" if v < 3 else "3-9" if v < 10 else "10+"))
     return ks
 
